@@ -1,5 +1,6 @@
 import ZenonVerif.Lemmas.Consensus
 import ZenonVerif.Lemmas.BeforeTime
+import ZenonVerif.Gen.Nondet
 /-
 C05 — momentums come only from the elected pillar; the schedule is deterministic: property theorems only.
 `sort` is ANY function returning a sorted permutation (Go's `sort.Sort` is not stable), `perm` is ANY
@@ -491,6 +492,15 @@ theorem cached_election_eq_recomputed (cache : Bytes → Option (List Bytes)) (c
     split at hr
     · rename_i heq; cases hr; rw [heq]
     · exact hc h r hr
+
+/-- generated fact (AST of vm, verifier, chain, consensus, common/db, common/types, regenerated on every run): no
+    function of these packages refers to the PROCESS-WIDE random generators — the package-level functions of
+    math/rand (`rand.Seed`, `rand.Perm`, `rand.Intn`, …), math/rand/v2 or crypto/rand, under whatever import name.
+    The model's `perm` parameter is a function of (seed, n) alone; that is what `rand.New(rand.NewSource(seed)).Perm(n)`
+    on a locally seeded generator is, and what a draw from the generator shared with every other goroutine of the
+    node (p2p, fetcher, discovery, concurrent elections) is not. The election stream exercises the same claim
+    dynamically: every election is repeated while other goroutines draw from and re-seed the process-wide generator. -/
+theorem election_uses_no_process_wide_randomness : Gen.globalRandSites = [] := by decide
 
 /-! ## e. momentum verifier -/
 
